@@ -1,0 +1,79 @@
+//go:build verif
+
+// Package verifhook re-exports a few internal packages so that an external
+// verification module can drive them directly. It is compiled only with the
+// "verif" build tag and is not part of the library.
+package verifhook
+
+import (
+	"go.uber.org/thriftrw/internal/concurrent"
+	"go.uber.org/thriftrw/internal/envelope"
+	"go.uber.org/thriftrw/internal/envelope/exception"
+	"go.uber.org/thriftrw/internal/frame"
+	"go.uber.org/thriftrw/internal/multiplex"
+	"go.uber.org/thriftrw/internal/plugin"
+	"go.uber.org/thriftrw/internal/process"
+)
+
+// internal/frame
+type (
+	FrameClient  = frame.Client
+	FrameServer  = frame.Server
+	FrameReader  = frame.Reader
+	FrameWriter  = frame.Writer
+	FrameHandler = frame.Handler
+)
+
+var (
+	NewFrameClient = frame.NewClient
+	NewFrameServer = frame.NewServer
+	NewFrameReader = frame.NewReader
+	NewFrameWriter = frame.NewWriter
+)
+
+// internal/envelope
+type (
+	EnvelopeHandler       = envelope.Handler
+	EnvelopeServer        = envelope.Server
+	EnvelopeClient        = envelope.Client
+	EnvelopeTransport     = envelope.Transport
+	ErrUnknownMethod      = envelope.ErrUnknownMethod
+	TApplicationException = exception.TApplicationException
+	ExceptionType         = exception.ExceptionType
+)
+
+var (
+	NewEnvelopeServer = envelope.NewServer
+	NewEnvelopeClient = envelope.NewClient
+)
+
+// internal/multiplex
+type MultiplexHandler = multiplex.Handler
+
+var (
+	NewMultiplexHandler = multiplex.NewHandler
+	NewMultiplexClient  = multiplex.NewClient
+)
+
+// internal/plugin
+type (
+	PluginHandle           = plugin.Handle
+	PluginServiceGenerator = plugin.ServiceGenerator
+	MultiHandle            = plugin.MultiHandle
+	MultiServiceGenerator  = plugin.MultiServiceGenerator
+	PluginFlag             = plugin.Flag
+	PluginFlags            = plugin.Flags
+)
+
+var (
+	NewTransportHandle = plugin.NewTransportHandle
+	EmptyHandle        = plugin.EmptyHandle
+)
+
+// internal/process
+type ProcessClient = process.Client
+
+var NewProcessClient = process.NewClient
+
+// internal/concurrent
+var ConcurrentRange = concurrent.Range
